@@ -111,9 +111,9 @@ func (p *concPlan) reference(env *Env) (answers []string, steps []int, perr stri
 	perr = safely(func() {
 		e := workload.NewEngines(ref.Storage)
 		for i := range p.pool {
-			before := *cnt
+			before := cnt()
 			answers = append(answers, workload.Exec(e, &p.pool[i]).CanonFull())
-			steps = append(steps, *cnt-before)
+			steps = append(steps, cnt()-before)
 		}
 	})
 	return answers, steps, perr
@@ -195,6 +195,9 @@ func RunC14(ch *core.Chooser, env *Env) *Outcome {
 	}
 	if res.SpecBlocked || res.SpecSkipped || res.UnhookedBlock {
 		out.Skipped = true
+		if res.Leaked {
+			out.Probes["tasks_left_parked_for_ever_race_build"]++
+		}
 		switch {
 		case res.UnhookedBlock:
 			out.Probes["released_task_blocked_on_a_lock_without_scheduling_point_run_abandoned"]++
